@@ -146,7 +146,11 @@ impl OutputFormatter {
         let schema = batches[0].schema();
 
         // Write header
-        let headers: Vec<&str> = schema.fields().iter().map(|f| f.name().as_str()).collect();
+        let headers: Vec<String> = schema
+            .fields()
+            .iter()
+            .map(|f| csv_field(f.name()))
+            .collect();
         writeln!(writer, "{}", headers.join(","))?;
 
         // Write data rows
@@ -207,7 +211,7 @@ impl OutputFormatter {
                     }
                     let col = batch.column(col_idx);
                     let value = self.format_json_value(col, row_idx);
-                    write!(writer, "\"{}\": {}", field_name, value)?;
+                    write!(writer, "{}: {}", json_string(field_name), value)?;
                 }
                 write!(writer, "}}")?;
                 row_count += 1;
@@ -267,14 +271,7 @@ impl OutputFormatter {
             return String::new();
         }
 
-        let value = self.format_display_value(array, row);
-
-        // Quote if contains comma, quote, or newline
-        if value.contains(',') || value.contains('"') || value.contains('\n') {
-            format!("\"{}\"", value.replace('"', "\"\""))
-        } else {
-            value
-        }
+        csv_field(&self.format_display_value(array, row))
     }
 
     /// Format a single value for JSON output
@@ -286,13 +283,11 @@ impl OutputFormatter {
         match array.data_type() {
             DataType::Utf8 => {
                 let arr = array.as_any().downcast_ref::<StringArray>().unwrap();
-                let val = arr.value(row);
-                format!("\"{}\"", val.replace('\\', "\\\\").replace('"', "\\\""))
+                json_string(arr.value(row))
             }
             DataType::LargeUtf8 => {
                 let arr = array.as_any().downcast_ref::<LargeStringArray>().unwrap();
-                let val = arr.value(row);
-                format!("\"{}\"", val.replace('\\', "\\\\").replace('"', "\\\""))
+                json_string(arr.value(row))
             }
             DataType::Boolean => {
                 let arr = array.as_any().downcast_ref::<BooleanArray>().unwrap();
@@ -332,15 +327,15 @@ impl OutputFormatter {
             }
             DataType::Float32 => {
                 let arr = array.as_any().downcast_ref::<Float32Array>().unwrap();
-                arr.value(row).to_string()
+                json_number(arr.value(row) as f64, arr.value(row).to_string())
             }
             DataType::Float64 => {
                 let arr = array.as_any().downcast_ref::<Float64Array>().unwrap();
-                arr.value(row).to_string()
+                json_number(arr.value(row), arr.value(row).to_string())
             }
             _ => {
-                // For other types, use display format with quotes
-                format!("\"{}\"", self.format_display_value(array, row))
+                // For other types, use the display text as a JSON string
+                json_string(&self.format_display_value(array, row))
             }
         }
     }
@@ -455,6 +450,32 @@ impl OutputFormatter {
                 format!("{:?}", array.as_ref())
             }
         }
+    }
+}
+
+/// One CSV field per RFC 4180: quoted (with embedded quotes doubled) when it
+/// contains a separator, a quote, or either line-break character — a bare CR
+/// ends the record for every CSV reader just as LF does.
+fn csv_field(value: &str) -> String {
+    if value.contains(',') || value.contains('"') || value.contains('\n') || value.contains('\r') {
+        format!("\"{}\"", value.replace('"', "\"\""))
+    } else {
+        value.to_string()
+    }
+}
+
+/// A JSON string literal for arbitrary text (quotes, backslashes, control
+/// characters and line breaks escaped).
+fn json_string(text: &str) -> String {
+    serde_json::to_string(text).unwrap_or_else(|_| "null".to_string())
+}
+
+/// JSON has no token for NaN or the infinities; they are written as null.
+fn json_number(value: f64, text: String) -> String {
+    if value.is_finite() {
+        text
+    } else {
+        "null".to_string()
     }
 }
 
